@@ -11,7 +11,8 @@ from checks import objgen as og
 TRUSTED_BASE = [
     "Coq 8.16.1 kernel (coqc); vm_compute only in the Example",
     "axioms: none",
-    "extraction ExtrOcamlBasic+ExtrOcamlString; extract/driver_lang.ml; harness/cpp/drv_prog.cpp; hook H4 (BLOCH_VERIF_GC forces a collection "
+    "extraction ExtrOcamlBasic+ExtrOcamlString; extract/driver_lang.ml, extract/driver_gcpin.ml; harness/cpp/drv_prog.cpp; hook H7 (BLOCH_VERIF_GCLOG: the heap graph, "
+    "kept set and swept set of every collection, fed to the extracted GcPin.pin); hook H4 (BLOCH_VERIF_GC forces a collection "
     "at every / no / masked statement boundaries and keeps the wall-clock timer off)",
     "ThreadSanitizer build of /repo without hooks (the real 50 ms timer thread) for the race and shutdown part",
     "modelled, not verified: the C++ collector and its thread. The theorems are about a mark-and-sweep collector over the reference interpreter's heap; "
@@ -123,6 +124,141 @@ def qubit_cycle_prog(rng):
     if rng.random() < 0.5:
         body.append("bit b = measure fresh; echo(b);")
     return reg + cell + junk + "function main() -> void {\n  " + "\n  ".join(body) + "\n}\n"
+
+
+def graph_prog(rng):
+    """a random heap graph of plain nodes (three links and a link to an observable object) and observable
+    objects (user destructor; they link back to plain nodes): some nodes stay held by main, the rest become garbage when
+    mk returns - garbage cycles, garbage pointing at live objects, garbage reaching an observable object directly, through
+    other garbage, through a live object, or not at all"""
+    np_, no_ = rng.randint(3, 8), rng.randint(0, 3)
+    src = ("class O { public int id; public P back; public constructor(int id) -> O { this.id = id; this.back = null; return this; } "
+           "public destructor() -> O { echo(\"~O \" + this.id); } }\n"
+           "class P { public P a; public P b; public O o; public P c; public constructor() -> P { this.a = null; this.b = null; this.c = null; this.o = null; return this; } }\n"
+           "class Junk { public constructor() -> Junk = default; }\n")
+    body = ["P n%d = new P();" % i for i in range(np_)] + ["O o%d = new O(%d);" % (i, i) for i in range(no_)]
+    plain = ["n%d" % i for i in range(np_)] + ["keep"]
+    obs_rate = rng.choice([0.0, 0.04, 0.1, 0.22])       # how often a link involves an observable object
+    obs = ["o%d" % i for i in range(no_)] + ["keepo"]
+    for _ in range(rng.randint(np_, 2 * np_ + 2)):
+        a = rng.choice(plain)
+        r = rng.random()
+        if r < 1 - 2 * obs_rate:
+            body.append("%s.%s = %s;" % (a, rng.choice("abc"), rng.choice(plain)))
+        elif r < 1 - obs_rate:
+            body.append("%s.o = %s;" % (a, rng.choice(obs)))
+        else:
+            body.append("%s.back = %s;" % (rng.choice(obs), rng.choice(plain)))
+    # garbage only survives its variables when it sits on (or hangs off) a cycle: tie some of the nodes into rings
+    for _ in range(rng.randint(1, 2)):
+        ring = rng.sample(range(np_), rng.randint(1, min(4, np_)))
+        fld = rng.choice("abc")
+        body += ["n%d.%s = n%d;" % (x, fld, y) for x, y in zip(ring, ring[1:] + ring[:1])]
+    if no_ and rng.random() < 0.4:      # a ring through an observable object
+        x = rng.randrange(np_)
+        body += ["o0.back = n%d;" % x, "n%d.o = o0;" % x]
+    mk = "function mk(P keep, O keepo) -> void {\n  " + "\n  ".join(body) + "\n}\n"
+    main = ["P live = new P();", "O lo = new O(99);", "mk(live, lo);",
+            "for (int i = 0; i < %d; i = i + 1) { Junk j = new Junk(); }" % rng.choice([0, 3, 25])]
+    if rng.random() < 0.4:
+        main.append("live.a = null; live.b = null;")
+    if rng.random() < 0.3:
+        main.append("live = null;")
+    if rng.random() < 0.3:
+        main.append("lo = null;")
+    main.append("echo(\"end\");")
+    return src + mk + "function main() -> void {\n  " + "\n  ".join(main) + "\n}\n"
+
+
+def parse_gclog_line(line):
+    head, graph, pp, ss = [x.strip() for x in line.split("|")]
+    n = int(head.split()[1])
+    marked, obs, ch = [0] * n, [0] * n, [[] for _ in range(n)]
+    for item in graph.split():
+        i, m, o, cs = item.split(":")
+        marked[int(i)], obs[int(i)] = int(m), int(o)
+        ch[int(i)] = [int(c) for c in cs.split(",") if c]
+    return n, marked, obs, ch, set(int(x) for x in pp.split()[1:]), set(int(x) for x in ss.split()[1:])
+
+
+def kept_set_runs(chk, sources):
+    """hook H7: every collection's heap graph, kept set and swept set, compared with the model's kept-set iteration (GcPin.pin)
+    and with what the theorems say about a swept object"""
+    drv = vlib.ocaml_engine("gcpin")
+    tmp = os.path.join(vlib.BUILD, "tmp", "c11log-%d" % os.getpid())
+    os.makedirs(tmp, exist_ok=True)
+    log = os.path.join(tmp, "gc.log")
+    stats = {"collections": 0, "distinct_graphs": 0, "too_large_skipped": 0, "with_kept_garbage": 0, "with_swept": 0, "with_marked_on_path": 0,
+             "largest_graph": 0, "disagreements": 0}
+
+    def locate(line):
+        for src in sources:
+            one = os.path.join(tmp, "one.log")
+            if os.path.exists(one):
+                os.remove(one)
+            lc.run_impl([src], env="BLOCH_VERIF_GC=all BLOCH_VERIF_GCLOG=%s" % one)
+            if os.path.exists(one) and line in open(one).read().splitlines():
+                return src
+        return None
+    try:
+        lc.run_impl(sources, env="BLOCH_VERIF_GC=all BLOCH_VERIF_GCLOG=%s" % log)
+        lines = open(log).read().splitlines() if os.path.exists(log) else []
+        stats["collections"] = len(lines)
+        uniq = []
+        for l in sorted(set(lines)):
+            if not l.startswith("GC ") or l.count("|") != 3:
+                continue        # a line cut short by a child that was killed
+            if int(l.split()[1]) > 300:
+                stats["too_large_skipped"] += 1
+                continue
+            uniq.append(l)
+        stats["distinct_graphs"] = len(uniq)
+        inp = os.path.join(tmp, "graphs.txt")
+        open(inp, "w").write("\n".join(uniq) + "\n")
+        rc, out = vlib.sh("%s %s" % (drv, inp), timeout=1800)
+        outs = out.splitlines()
+        if rc != 0 or len(outs) != len(uniq):
+            raise RuntimeError("gcpin driver: rc=%s, %d/%d lines: %s" % (rc, len(outs), len(uniq), out[-300:]))
+        for l, mo in zip(uniq, outs):
+            n, marked, obs, ch, P, S = parse_gclog_line(l)
+            stats["largest_graph"] = max(stats["largest_graph"], n)
+            why = None
+            if any(c < 0 or c >= n for cs in ch for c in cs):
+                why = "an object refers to an object that is not in the collector's snapshot of the heap"
+            elif mo == "none":
+                why = "the model's kept-set iteration did not reach a fixed point within n+1 rounds"
+            else:
+                Q = set(int(x) for x in mo.split()[1:])
+                desc, work = set(Q), list(Q)
+                while work:
+                    for c in ch[work.pop()]:
+                        if c not in desc:
+                            desc.add(c)
+                            work.append(c)
+                expect_swept = set(i for i in range(n) if not marked[i] and not obs[i] and i not in desc)
+                if Q != P:
+                    why = "kept set differs: implementation %s, model %s" % (sorted(P), sorted(Q))
+                elif S != expect_swept:
+                    why = "swept set differs: implementation %s, expected the unreached, unobservable objects not reachable from the kept set %s" % (sorted(S), sorted(expect_swept))
+                else:
+                    for sw in S:
+                        for c in ch[sw]:
+                            if obs[c] or c in Q:
+                                why = "swept object %d refers to %d, which is observable or kept garbage" % (sw, c)
+                if any(not marked[i] and not obs[i] for i in Q):
+                    stats["with_kept_garbage"] += 1
+                if S:
+                    stats["with_swept"] += 1
+                if any(not marked[i] and any(marked[c] and not obs[c] for c in ch[i]) for i in range(n)):
+                    stats["with_marked_on_path"] += 1
+            if why:
+                stats["disagreements"] += 1
+                chk.report("c11-kept-set", {"collection": l, "model": mo, "source": locate(l),
+                                            "how": "BLOCH_VERIF_GC=all BLOCH_VERIF_GCLOG=gc.log build/hooked/bin/bloch p.bloch ; build/ml/gcpin/gcpin.exe gc.log "
+                                                   "(line format: GC n | index:reached-from-roots:observable:children ... | P kept set | S swept set)"}, why)
+    finally:
+        shutil.rmtree(tmp, ignore_errors=True)
+    return stats
 
 
 THREAD_PROGS = [
@@ -250,11 +386,31 @@ def run(chk):
                                                     "how": "BLOCH_VERIF_GC=%s drv_prog 'run p.bloch %s' vs BLOCH_VERIF_GC=none" % (sname, draws)},
                            "circuit / warnings / qubit bookkeeping depend on the collection schedule (%s): %s" % (sname, ",".join(diff)))
                 break
+    gsrc = [graph_prog(rng) for _ in range(60 if quick else 800)]
+    gouts = {sname: lc.run_impl(gsrc, env="BLOCH_VERIF_GC=%s" % sname) for sname in scheds}
+    ng = 0
+    for i, src in enumerate(gsrc):
+        base = gouts["none"][i]
+        if base.get("status") != "ok":
+            chk.report("c11-graph-run", {"source": src, "implementation": {k: base.get(k) for k in ("status", "cat", "msg", "stdout", "signal")}},
+                       "heap-graph program did not run: %s %s" % (base.get("status"), base.get("msg")))
+            continue
+        for sname, res in gouts.items():
+            r = res[i]
+            if (r.get("status"), r.get("stdout")) != (base.get("status"), base.get("stdout")):
+                ng += 1
+                chk.report("c11-graph-schedule", {"source": src, "schedule": sname, "with_schedule": {k: r.get(k) for k in ("status", "cat", "msg", "stdout", "signal")},
+                                                  "without_collection": base.get("stdout"),
+                                                  "how": "BLOCH_VERIF_GC=%s build/hooked/bin/bloch p.bloch   vs   BLOCH_VERIF_GC=none ..." % sname},
+                           "destructor output depends on the collection schedule (%s)" % sname)
+                break
+    kept = kept_set_runs(chk, gsrc + qsrc + srcs[:(60 if quick else 600)])
     nthr = thread_runs(chk)
     ntsan = tsan_runs(chk) if True else 0
     chk.cov.update({"programs": len(progs), "schedules": list(outs), "executions": len(progs) * len(outs), "verdicts_vs_reference": counts,
                     "schedule_disagreements": ndiff, "qubit_cycle_programs": len(qsrc), "qubit_cycle_schedule_disagreements": nq, "distinct_nontrivial_programs": len(nontriv), "tsan_runs": ntsan, "timer_thread_runs": nthr,
-                    "disagreements_checked": ndiff + sum(v for k, v in counts.items() if k not in ("agree", "rejected") and not k.startswith("skip")),
+                    "heap_graph_programs": len(gsrc), "heap_graph_schedule_disagreements": ng, "kept_set_correspondence": kept,
+                    "disagreements_checked": ndiff + ng + kept["disagreements"] + sum(v for k, v in counts.items() if k not in ("agree", "rejected") and not k.startswith("skip")),
                     "rule": "programs whose object graphs are held by variables, fields, statics, pending call arguments, temporaries used as receivers and in-flight "
                             "return values, with allocation bursts (0..40 objects) at exactly those points, garbage cycles, cascading destructors; plus random class "
                             "hierarchies. Each is run with no collection, a collection at every statement boundary, at masked subsets of boundaries, and with the default "
